@@ -2,8 +2,7 @@
   C01 — round-trip fidelity of a full read.
   Property theorems only; helper lemmas live in BS/Proofs.
 -/
-import BS.Proofs.Region
-import BS.Impl.Data
+import BS.Proofs.Accessors
 
 namespace BS.Props.C01
 open BS BS.Impl
@@ -23,6 +22,15 @@ theorem full_read_roundtrip (p : Nat) (cb : Option Bool) (e : Entry) (es : List 
   rw [readRegion_canonical p cb collectProc {} e es hv]
   obtain ⟨l, hl⟩ := fold_collect_init (e :: es) hv.1
   simp [hl]
+
+/-- **End to end on the model of the API**: in every state that satisfies the session
+invariant for a non-empty history (established at creation, preserved by every accepted
+`push_line` — C03), `read_all(..)` — seek with unbounded bounds, then the buffered read —
+returns exactly that history. -/
+theorem read_all_returns_history (hdr ihdr : Bytes) (dir : Dir) (s : Sess) (e : Entry) (es : List Entry)
+    (hinv : SessInv hdr ihdr dir s (e :: es)) :
+    apiReadAll dir s .unb .unb = .ok (e :: es) :=
+  readAll_unbounded hdr ihdr dir s e es hinv
 
 /-- **The buffer size is irrelevant** (and so is where sections fall relative to buffer
 boundaries, how often in a row a boundary splits a section, and how large the file is):
